@@ -78,21 +78,38 @@ Theorem C12_noise_close_refuted :
   /\ g_close CfgA 1 (g_noise (plan_noise 0 FCLOSE 0 e_EINTR) [1] MWrite 0) = None.
 Proof. exact noise_close_witness. Qed.
 Print Assumptions C12_noise_close_refuted.
-(* errno-noise:coll-fopen (with the stream of rank 1 left open), errno-noise:coll-transfer, errno-noise:coll-reopen *)
+(* errno-noise:coll-transfer (stays a finding: `errval = errno` after a complete fread / fwrite of the fallback) *)
 Theorem C12_noise_coll_refuted :
   let args := [mkA 0 1 [1]; mkA 1 1 [2]; mkA 2 1 [3]] in
   let g pl := mkG (mkW (File []) pl (fun _ _ => 0) 0 1 0) (Some (mkS MWrite 0)) true in
-  (match g_coll true (g (plan_noise 1 FOPEN 0 e_ESPIPE)) 1 args with
-   | Some (g', rs) => map r_cls rs = [errclass CfgC e_ESPIPE; errclass CfgC e_ESPIPE; errclass CfgC e_ESPIPE]
-                      /\ map r_ocount rs = [1; 0; 0] /\ w_fail (g_w g') = 0 /\ w_open (g_w g') = 2 /\ content (g_w g') = [1]
-   | None => False end)
-  /\ (match g_coll true (g (plan_noise 2 FWRITE 0 e_EAGAIN)) 1 args with
-      | Some (g', rs) => map r_cls rs = [errclass CfgC e_EAGAIN; errclass CfgC e_EAGAIN; errclass CfgC e_EAGAIN]
-                         /\ map r_ocount rs = [1; 1; 1] /\ w_fail (g_w g') = 0 /\ w_open (g_w g') = 1 /\ content (g_w g') = [1; 2; 3]
-      | None => False end)
-  /\ g_coll true (g (plan_noise 0 FOPEN 0 e_ESPIPE)) 1 args = None.
+  match g_coll true (g (plan_noise 2 FWRITE 0 e_EAGAIN)) 1 args with
+  | Some (g', rs) => map r_cls rs = [errclass CfgC e_EAGAIN; errclass CfgC e_EAGAIN; errclass CfgC e_EAGAIN]
+                     /\ errclass CfgC e_EAGAIN <> SUCCESS CfgC
+                     /\ map r_ocount rs = [1; 1; 1] /\ w_fail (g_w g') = 0 /\ w_open (g_w g') = 1 /\ content (g_w g') = [1; 2; 3]
+  | None => False end.
 Proof. exact noise_coll_witness. Qed.
 Print Assumptions C12_noise_coll_refuted.
+
+(* regression guard for the four fopen judgements of the fallback (former findings errno-noise:coll-fopen and
+   errno-noise:coll-reopen, repaired like F-C12j): the lines before the repair (`g_coll_old`) on a fopen that succeeds with
+   errno = ESPIPE: every rank reports its class, rank 1 writes nothing and its stream stays open; at the re-open of rank 0 the
+   group aborts.  The current code on the same inputs: SUCCESS, all blocks written, one stream open *)
+Theorem C12_coll_old_judge_refuted :
+  let args := [mkA 0 1 [1]; mkA 1 1 [2]; mkA 2 1 [3]] in
+  let g pl := mkG (mkW (File []) pl (fun _ _ => 0) 0 1 0) (Some (mkS MWrite 0)) true in
+  (match g_coll_old true (g (plan_noise 1 FOPEN 0 e_ESPIPE)) 1 args with
+   | Some (g', rs) => map r_cls rs = [errclass CfgC e_ESPIPE; errclass CfgC e_ESPIPE; errclass CfgC e_ESPIPE]
+                      /\ errclass CfgC e_ESPIPE <> SUCCESS CfgC
+                      /\ map r_ocount rs = [1; 0; 0] /\ w_fail (g_w g') = 0 /\ w_open (g_w g') = 2 /\ content (g_w g') = [1]
+   | None => False end)
+  /\ g_coll_old true (g (plan_noise 0 FOPEN 0 e_ESPIPE)) 1 args = None
+  /\ (forall q, q = 0 \/ q = 1 ->
+      match g_coll true (g (plan_noise q FOPEN 0 e_ESPIPE)) 1 args with
+      | Some (g', rs) => map r_cls rs = [SUCCESS CfgC; SUCCESS CfgC; SUCCESS CfgC] /\ map r_ocount rs = [1; 1; 1]
+                         /\ w_fail (g_w g') = 0 /\ w_open (g_w g') = 1 /\ content (g_w g') = [1; 2; 3]
+      | None => False end).
+Proof. exact coll_old_judge_refuted. Qed.
+Print Assumptions C12_coll_old_judge_refuted.
 
 (* ---- close: same class on all ranks; SUCCESS iff fclose did not fail; every context is freed *)
 Theorem C12_close cfg P g g' cls : 0 < P -> plan_ok (w_plan (g_w g)) ->
@@ -308,9 +325,9 @@ Print Assumptions C12_one_schedule_all_schedules.
        counters, failed calls, open streams);
      - no reachable state is stuck;
      - at every reachable state at most one rank has a stdio call as its next action (mutual exclusion by the token). *)
-(* fopen_honest: no fopen of the plan is "success with errno noise" (finding errno-noise:coll-fopen: a rank would take the error
-   path while it holds a stream); every other kind of entry, noise at the other calls included, is admitted *)
-Theorem C12_coll_every_schedule wr size args g g' rs : 0 < len args -> fopen_honest (w_plan (g_w g)) ->
+(* (every plan, "success with errno noise" at any call included: since the fopen calls of the fallback are judged by the
+   returned stream no hypothesis about the plan is needed) *)
+Theorem C12_coll_every_schedule wr size args g g' rs : 0 < len args ->
   g_coll wr g size args = Some (g', rs) ->
   let P := len args in
   let start := coll_state wr P size args (g_w g) (g_s0 g) in
@@ -420,6 +437,14 @@ Theorem C12_gen_fallback_modes :
   oc_fallback_modes_read = [mode_str MRead; mode_str MRead] /\ oc_fallback_modes_write = [mode_str MAppend; mode_str MAppend].
 Proof. exact gen_fallback_modes. Qed.
 Print Assumptions C12_gen_fallback_modes.
+
+(* how the fallback judges its four fopen calls (the statement behind each `mpifile->file = fopen (..)`): errval of a rank > 0
+   = errno only if the stream is NULL; the re-open of rank 0 aborts exactly when the stream is NULL *)
+Theorem C12_gen_fallback_judgements : forall file e,
+  oc_fallback_errval_read file e = open_judge (nz file) e /\ oc_fallback_errval_write file e = open_judge (nz file) e
+  /\ oc_fallback_reopen_bad_read file e = negb (nz file) /\ oc_fallback_reopen_bad_write file e = negb (nz file).
+Proof. exact gen_fallback_judgements. Qed.
+Print Assumptions C12_gen_fallback_judgements.
 
 (* sc_io_open, MPI without MPI I/O *)
 Theorem C12_gen_open_C : forall me amode comm fname info fileptr szof mret size_out size_ret rank_ret errno0 fo_errno fo_ret bc_out bc_ret ec_ret,
